@@ -27,6 +27,18 @@ mod walk;
 #[cfg(fclones_verif)]
 pub mod verif;
 
+/// Re-exports of crate-private items for the verification harness.
+#[cfg(fclones_verif)]
+pub mod verif_api {
+    pub use crate::arg::{from_stfu8, join, quote, split, to_stfu8, Arg, ParseError};
+    pub use crate::lock::FileLock;
+    pub use crate::pattern::{Pattern, PatternError, PatternOpts};
+    pub use crate::regex::Regex;
+    pub use crate::selector::PathSelector;
+    pub use crate::semaphore::{OwnedSemaphoreGuard, Semaphore, SemaphoreGuard};
+    pub use crate::walk::Walk;
+}
+
 pub use config::{DedupeConfig, GroupConfig, Priority};
 pub use dedupe::{
     dedupe, log_script, run_script, sort_by_priority, DedupeOp, DedupeResult, PartitionedFileGroup,
